@@ -606,19 +606,37 @@ const (
 
 type c17Cli struct {
 	greet  string // ok | preauth | bye | none
+	early  bool   // the greeting is written on accept, before the STARTTLS command was read (else with the tagged reply)
+	dial   bool   // imapclient.DialStartTLS over a loopback TCP connection (else NewStartTLS over the in-memory pipe)
 	pre    []byte
 	reply  string // OK | NO | BAD
 	suffix []byte
-	cuts   []int
+	cuts   []int // segmentation of what is written after the STARTTLS command was read
 	hs     bool
 }
 
-func (c c17Cli) inputs() []string {
-	return []string{c.greet, hx(c.pre), c.reply, hx(c.suffix), c17Cuts(c.cuts), b01(c.hs), hx([]byte(c17TLSCaps + c17TLSExists))}
+func (c c17Cli) greetField() string {
+	if c.early {
+		return c.greet + ".e"
+	}
+	return c.greet
 }
 
-func c17ParseCli(f []string) c17Cli {
-	return c17Cli{greet: f[0], pre: unhx(f[1]), reply: f[2], suffix: unhx(f[3]), cuts: c17ParseCuts(f[4]), hs: f[5] == "1"}
+func (c c17Cli) kind() string {
+	if c.dial {
+		return "dial"
+	}
+	return "cli"
+}
+
+func (c c17Cli) inputs() []string {
+	return []string{c.greetField(), hx(c.pre), c.reply, hx(c.suffix), c17Cuts(c.cuts), b01(c.hs), hx([]byte(c17TLSCaps + c17TLSExists))}
+}
+
+func c17ParseCli(kind string, f []string) c17Cli {
+	g := strings.TrimSuffix(f[0], ".e")
+	return c17Cli{greet: g, early: g != f[0], dial: kind == "dial", pre: unhx(f[1]), reply: f[2], suffix: unhx(f[3]),
+		cuts: c17ParseCuts(f[4]), hs: f[5] == "1"}
 }
 
 func c17GreetLine(g string) string {
@@ -633,8 +651,49 @@ func c17GreetLine(g string) string {
 	return ""
 }
 
+// c17PeerConn is what the scripted peer needs: the pipe end or an accepted TCP connection.
+type c17PeerConn interface {
+	net.Conn
+	CloseWrite() error
+}
+
+// loopback listeners for DialStartTLS (it dials TCP itself); a case borrows one for its duration
+var (
+	c17LnOnce  sync.Once
+	c17LnPool  chan net.Listener
+	c17LnBound int
+)
+
+func c17Listeners() chan net.Listener {
+	c17LnOnce.Do(func() {
+		c17LnPool = make(chan net.Listener, 16)
+		for i := 0; i < 16; i++ {
+			ln, err := net.Listen("tcp", "127.0.0.1:0")
+			if err != nil {
+				break
+			}
+			c17LnPool <- ln
+			c17LnBound++
+		}
+	})
+	return c17LnPool
+}
+
+func c17CloseListeners() {
+	if c17LnPool == nil {
+		return
+	}
+	for {
+		select {
+		case ln := <-c17LnPool:
+			ln.Close()
+		default:
+			return
+		}
+	}
+}
+
 func c17RunCli(c c17Cli) caseLine {
-	cEnd, pEnd := c17Pipe()
 	var (
 		mu        sync.Mutex
 		delivered []string
@@ -662,10 +721,12 @@ func c17RunCli(c c17Cli) caseLine {
 		},
 		Fetch: func(m *imapclient.FetchMessageData) { rec(fmt.Sprintf("F%d", m.SeqNum)) },
 	}
+	options := &imapclient.Options{TLSConfig: c17ClientTLS(), UnilateralDataHandler: handler}
 
-	go func() {
+	// peer: the scripted server end
+	peer := func(pc c17PeerConn, onStall func(func()) func()) {
 		defer close(peerDone)
-		defer pEnd.Close()
+		defer pc.Close()
 		signalled := false
 		signal := func(ok bool) {
 			if !signalled {
@@ -674,38 +735,59 @@ func c17RunCli(c c17Cli) caseLine {
 			}
 		}
 		defer signal(false)
-		rd := &c17Reader{c: pEnd}
-		l, ok := rd.readLine()
-		if !ok {
-			return
+		if c.early {
+			pc.Write([]byte(c17GreetLine(c.greet)))
 		}
-		f := strings.Fields(l)
-		if len(f) < 2 {
-			return
+		rd := &c17Reader{c: pc}
+		var f []string
+		for {
+			// plaintext commands other than STARTTLS (the client's automatic CAPABILITY after an early
+			// greeting) are recorded and left unanswered
+			l, ok := rd.readLine()
+			if !ok {
+				return
+			}
+			f = strings.Fields(l)
+			if len(f) < 2 {
+				return
+			}
+			mu.Lock()
+			plainCmds = append(plainCmds, strings.Join(f[1:], " "))
+			mu.Unlock()
+			if f[1] == "STARTTLS" {
+				break
+			}
 		}
 		mu.Lock()
 		tag = f[0]
-		plainCmds = append(plainCmds, strings.Join(f[1:], " "))
 		mu.Unlock()
-		stream := []byte(c17GreetLine(c.greet) + string(c.pre) + f[0] + " " + c.reply + " begin\r\n" + string(c.suffix))
+		g := c17GreetLine(c.greet)
+		if c.early {
+			g = ""
+		}
+		stream := []byte(g + string(c.pre) + f[0] + " " + c.reply + " begin\r\n" + string(c.suffix))
 		for _, seg := range c17Segments(stream, c.cuts) {
-			pEnd.Write(seg)
+			pc.Write(seg)
 		}
 		raw := rd.raw(&cafter)
 		raw.mu = &capMu
 		// from here on a state in which both ends wait for input can only be a TLS-level dead end
 		// (or a client that has nothing more to say): end the conversation instead of waiting
-		stop := pEnd.onStall(func() { pEnd.CloseWrite() })
-		defer stop()
+		stop := func() {}
+		if onStall != nil {
+			stop = onStall(func() { pc.CloseWrite() })
+		}
+		defer func() { stop() }()
 		if c.hs && c.reply == "OK" {
 			ts := tls.Server(raw, c17ServerTLS())
 			if err := ts.Handshake(); err != nil {
 				signal(false)
-				pEnd.CloseWrite()
+				pc.CloseWrite()
 				raw.drainToEOF()
 				return
 			}
 			stop()
+			stop = func() {}
 			signal(true)
 			tr := &c17Reader{c: ts}
 			for {
@@ -730,13 +812,76 @@ func c17RunCli(c c17Cli) caseLine {
 				}
 			}
 		}
-		// no handshake: whatever the client still writes is captured until it closes or stalls
-		raw.drainToEOF()
-	}()
+		// no handshake: whatever the client still writes is captured until it closes, stalls (pipe) or has
+		// sent one complete TLS record (its ClientHello, after which it can only wait for an answer)
+		p := make([]byte, 4096)
+		for {
+			capMu.Lock()
+			got := cafter
+			capMu.Unlock()
+			if len(got) >= 5 && got[0] >= 20 && got[0] <= 23 && len(got) >= 5+int(got[3])<<8+int(got[4]) {
+				return
+			}
+			if _, err := raw.Read(p); err != nil {
+				return
+			}
+		}
+	}
+
+	var construct func() (*imapclient.Client, error)
+	var abort func()
+	if c.dial {
+		pool := c17Listeners()
+		if c17LnBound == 0 {
+			return caseLine{kind: "skip"}
+		}
+		ln := <-pool
+		lnBad := false
+		defer func() {
+			if lnBad {
+				ln.Close() // a connection may still be pending on it: never hand it to another case
+				if nl, err := net.Listen("tcp", "127.0.0.1:0"); err == nil {
+					pool <- nl
+				}
+			} else {
+				pool <- ln
+			}
+		}()
+		var acc net.Conn
+		var accMu sync.Mutex
+		go func() {
+			conn, err := ln.Accept()
+			if err != nil {
+				close(peerDone)
+				hsDone <- false
+				return
+			}
+			conn.SetDeadline(time.Now().Add(25 * time.Second))
+			accMu.Lock()
+			acc = conn
+			accMu.Unlock()
+			peer(conn.(*net.TCPConn), nil)
+		}()
+		addr := ln.Addr().String()
+		construct = func() (*imapclient.Client, error) { return imapclient.DialStartTLS(addr, options) }
+		abort = func() {
+			lnBad = true
+			accMu.Lock()
+			if acc != nil {
+				acc.Close()
+			}
+			accMu.Unlock()
+		}
+	} else {
+		cEnd, pEnd := c17Pipe()
+		go peer(pEnd, pEnd.onStall)
+		construct = func() (*imapclient.Client, error) { return imapclient.NewStartTLS(cEnd, options) }
+		abort = func() { cEnd.Close(); pEnd.Close() }
+	}
 
 	result, capsS, noop, end := "error", "-", "-", "ok"
 	finished := c17Watchdog(20*time.Second, func() {
-		client, err := imapclient.NewStartTLS(cEnd, &imapclient.Options{TLSConfig: c17ClientTLS(), UnilateralDataHandler: handler})
+		client, err := construct()
 		if err != nil {
 			<-peerDone
 			return
@@ -760,19 +905,17 @@ func c17RunCli(c c17Cli) caseLine {
 			}
 		}
 		// Close waits for the reader goroutine, i.e. for everything the client is going to deliver.
-		// A reader that is stuck completing a half-registered command (the C13 defect "completeCommand
-		// sends on a nil channel") never returns: that is not C17's business; the case is then judged on
-		// what was observed and counted as skipped:c13-close-hang.
+		// (A reader stuck on a half-registered command, the repaired C13 defect, would be reported as
+		// hang13 and the case judged on what was observed.)
 		if !c17Watchdog(3*time.Second, func() { client.Close() }) {
 			end = "hang13"
-			cEnd.Close()
+			abort()
 		}
 		<-peerDone
 	})
 	if !finished {
 		end = "timeout"
-		cEnd.Close()
-		pEnd.Close()
+		abort()
 	}
 	mu.Lock()
 	defer mu.Unlock()
@@ -792,7 +935,7 @@ func c17RunCli(c c17Cli) caseLine {
 		tg = "?"
 	}
 	fields := append(c.inputs(), hx([]byte(tg)), result, c17Join(delivered, ";"), capsS, noop, c17Join(plainCmds, ","), hx(ca), c17Join(tc, ","), end)
-	l := caseLine{kind: "cli", fields: fields}
+	l := caseLine{kind: c.kind(), fields: fields}
 	if end == "hang13" {
 		l.counts = append(l.counts, "skipped:c13-close-hang")
 	}
@@ -1010,13 +1153,23 @@ func c17RandCli(r *rng) (c17Cli, []string) {
 		}
 	}
 	c.hs = r.chance(1, 2)
-	total := len(c17GreetLine(c.greet)) + len(c.pre) + len("T1 "+c.reply+" begin\r\n") + len(c.suffix)
+	c.early = c.greet != "none" && r.chance(1, 3)
+	c.dial = r.chance(2, 5)
+	if c.dial && len(c.suffix) > 0 && c.suffix[0] >= 20 && c.suffix[0] <= 23 && !bytes.Equal(c.suffix, []byte("\x15\x03\x03\x00\x02\x02\x28")) {
+		// over TCP there is no stall detection: keep away from injected record headers that make the
+		// client's TLS layer wait for more bytes than will ever come
+		c.suffix[0] = 'g'
+	}
+	total := len(c.pre) + len("T1 "+c.reply+" begin\r\n") + len(c.suffix)
+	if !c.early {
+		total += len(c17GreetLine(c.greet))
+	}
 	if r.chance(1, 3) {
 		c.cuts = []int{total}
 	} else {
 		c.cuts = c17RandCuts(r, total)
 	}
-	counts = append(counts, "cli-greet:"+c.greet, "cli-reply:"+c.reply, "hs:"+b01(c.hs))
+	counts = append(counts, "cli-greet:"+c.greetField(), "cli-reply:"+c.reply, "hs:"+b01(c.hs), "ctor:"+c.kind())
 	if len(c.suffix) == 0 {
 		counts = append(counts, "suffix:empty")
 	} else {
@@ -1046,11 +1199,21 @@ func genC17(e *emitter, tier string, seed uint64) {
 				line: []byte("a STARTTLS\r\n"), cuts: []int{39 + 12}, hs: hs, post: post, sasl: "-"}, "corpus")
 		}
 	}
-	for _, g := range []string{"ok", "preauth", "bye", "none"} {
-		for _, hs := range []bool{false, true} {
-			for _, sfx := range []string{"", "* 5 EXISTS\r\n", "* CAPABILITY IMAP4rev1 AUTH=PLAIN XINJ\r\nT2 OK smuggled\r\n"} {
-				n := len(c17GreetLine(g)) + len("T1 OK begin\r\n") + len(sfx)
-				addC(c17Cli{greet: g, reply: "OK", suffix: []byte(sfx), cuts: []int{n}, hs: hs}, "corpus")
+	for _, dial := range []bool{false, true} {
+		for _, g := range []string{"ok", "preauth", "bye", "none"} {
+			for _, early := range []bool{false, true} {
+				if early && g == "none" {
+					continue
+				}
+				for _, hs := range []bool{false, true} {
+					for _, sfx := range []string{"", "* 5 EXISTS\r\n", "* CAPABILITY IMAP4rev1 AUTH=PLAIN XINJ\r\nT2 OK smuggled\r\n"} {
+						n := len("T1 OK begin\r\n") + len(sfx)
+						if !early {
+							n += len(c17GreetLine(g))
+						}
+						addC(c17Cli{greet: g, early: early, dial: dial, reply: "OK", suffix: []byte(sfx), cuts: []int{n}, hs: hs}, "corpus")
+					}
+				}
 			}
 		}
 	}
@@ -1112,6 +1275,10 @@ func genC17(e *emitter, tier string, seed uint64) {
 		addC(c, append(counts, "random:cli")...)
 	}
 
+	var (
+		skipMu  sync.Mutex
+		skipped int
+	)
 	parCases(e, len(jobs), func(i int) []caseLine {
 		j := jobs[i]
 		var l caseLine
@@ -1120,9 +1287,19 @@ func genC17(e *emitter, tier string, seed uint64) {
 		} else {
 			l = c17RunCli(*j.cli)
 		}
+		if l.kind == "skip" {
+			skipMu.Lock()
+			skipped++
+			skipMu.Unlock()
+			return nil
+		}
 		l.counts = append(l.counts, j.counts...)
 		return []caseLine{l}
 	})
+	for i := 0; i < skipped; i++ {
+		e.count("skipped:no-loopback-listener")
+	}
+	c17CloseListeners()
 }
 
 func replayC17(e *emitter, kind string, f []string) {
@@ -1130,8 +1307,9 @@ func replayC17(e *emitter, kind string, f []string) {
 	switch kind {
 	case "srv":
 		l = c17RunSrv(c17ParseSrv(f))
-	case "cli":
-		l = c17RunCli(c17ParseCli(f))
+	case "cli", "dial":
+		l = c17RunCli(c17ParseCli(kind, f))
+		c17CloseListeners()
 	default:
 		return
 	}
